@@ -25,6 +25,7 @@ type Conn struct {
 	once    sync.Once
 	seq     int
 	out     []Out
+	all     []OutF
 	// OnWrite, when set, is called before a write is recorded; it may block (a gate) and may
 	// return an error to make the write fail. It is called without c.mu held.
 	OnWrite func(b []byte, to net.Addr) error
@@ -34,6 +35,11 @@ type pkt struct {
 	b    []byte
 	from net.Addr
 	ack  chan struct{}
+}
+
+type OutF struct {
+	Out
+	Failed bool
 }
 
 type Out struct {
@@ -112,10 +118,31 @@ func (c *Conn) WriteTo(b []byte, to net.Addr) (int, error) {
 	ua, _ := to.(*net.UDPAddr)
 	c.mu.Lock()
 	c.seq++
-	c.out = append(c.out, Out{Seq: c.seq, B: append([]byte{}, b...), To: ua, When: time.Now()})
+	o := Out{Seq: c.seq, B: append([]byte{}, b...), To: ua, When: time.Now()}
+	c.out = append(c.out, o)
+	c.all = append(c.all, OutF{o, false})
 	c.cond.Broadcast()
 	c.mu.Unlock()
 	return len(b), nil
+}
+
+// Failed records a write the OnWrite hook made fail.
+func (c *Conn) Failed(b []byte, to net.Addr) {
+	ua, _ := to.(*net.UDPAddr)
+	c.mu.Lock()
+	c.seq++
+	c.all = append(c.all, OutF{Out{Seq: c.seq, B: append([]byte{}, b...), To: ua, When: time.Now()}, true})
+	c.mu.Unlock()
+}
+
+// TakeAll removes and returns successful and failed writes in order (Take's view is emptied too).
+func (c *Conn) TakeAll() []OutF {
+	c.mu.Lock()
+	defer c.mu.Unlock()
+	o := c.all
+	c.all = nil
+	c.out = nil
+	return o
 }
 
 // Take removes and returns the writes captured so far.
@@ -124,6 +151,7 @@ func (c *Conn) Take() []Out {
 	defer c.mu.Unlock()
 	o := c.out
 	c.out = nil
+	c.all = nil
 	return o
 }
 
@@ -180,10 +208,15 @@ func Goroutines() [][]string {
 			if strings.HasPrefix(l, "\t") || strings.HasPrefix(l, "goroutine ") {
 				continue
 			}
-			if i := strings.LastIndex(l, "("); i > 0 {
+			if strings.HasPrefix(l, "created by ") {
+				l = strings.TrimPrefix(l, "created by ")
+				if i := strings.Index(l, " in goroutine"); i > 0 {
+					l = l[:i]
+				}
+			} else if i := strings.LastIndex(l, "("); i > 0 {
 				l = l[:i]
 			}
-			fr = append(fr, strings.TrimPrefix(l, "created by "))
+			fr = append(fr, l)
 		}
 		res = append(res, fr)
 	}
